@@ -133,6 +133,7 @@ impl Rule {
         let mut res_word = word; 
         for i in sub_rules {
             #[cfg(asca_verif)] crate::verif::emit(|| crate::verif::Event::SubBegin { word: res_word.clone() });
+            #[cfg(asca_verif)] crate::verif::tick_at(0, crate::word::SegPos::new(0, 0), &res_word, 0);
             res_word = i.apply(res_word)?;
             #[cfg(asca_verif)] crate::verif::emit(|| crate::verif::Event::SubEnd { word: res_word.clone() });
         }
